@@ -10,6 +10,8 @@ lake workspace, so concurrent checks do not interfere).
   TimeIntervalScheduler.is_available (C15)                  Sched.TSched.due
   StepIntervalScheduler.is_available (C15)                  Sched.SSched.due
   ControlThread.is_max_uptime_reached (C08)                 Bookkeep.uptimeReached
+  ThreadController.is_pause / is_active (C17, C02)          negation of the resume / shutdown event
+  EnvStep.done (C20)                                        terminated || truncated
 
 Outcome per function: `tied` (the theorem checks), `unavailable` (the function left the translatable
 subset or renamed what it reads: no claim, the dynamic correspondence still covers it), or a
@@ -52,6 +54,9 @@ EXPECTED = {
     "timeIntervalAvailable": (("time_","Rat"),("previous_available_time","Rat"),("interval","Rat")),
     "stepIntervalAvailable": (("steps_since_last_call","Rat"),("interval","Rat")),
     "maxUptimeReached": (("time_","Rat"),("system_start_time","Rat"),("max_uptime","Rat")),
+    "controllerIsPause": (("is_resume","Bool"),),
+    "controllerIsActive": (("is_shutdown","Bool"),),
+    "envStepDone": (("terminated","Bool"),("truncated","Bool")),
 }
 
 # (property ids, source, class, function, lean name, enums, extra defs, theorem text)
@@ -119,6 +124,20 @@ theorem maxUptimeReached_is_model (scale limit e start : Rat) :
   have h : start + scale * e - start = scale * e := by
     rw [Rat.add_comm, Rat.add_sub_cancel]
   simp only [h]
+"""),
+    (("C17", "C01"), "thread/thread_control.py", "ThreadController", "is_pause", "controllerIsPause", (), "",
+     """/-- "paused" is read off the resume event (what `getCurrentStatus_is_table` assumes of one instant). -/
+theorem controllerIsPause_is_not_resume (r : Bool) : controllerIsPause { is_resume := r } = !r := rfl
+"""),
+    (("C02",), "thread/thread_control.py", "ThreadController", "is_active", "controllerIsActive", (), "",
+     """/-- The loop guard's activity flag is the negation of the shutdown event (`Proto.bReadShutdown`). -/
+theorem controllerIsActive_is_not_shutdown (sd : Bool) : controllerIsActive { is_shutdown := sd } = !sd := rfl
+"""),
+    (("C20",), "gym/types.py", "EnvStep", "done", "envStepDone", (), "",
+     """/-- An episode has ended iff the step was terminated or truncated (the test of `Gym.affect`). -/
+theorem envStepDone_is_or (t u : Bool) : envStepDone { terminated := t, truncated := u } = (t || u) := by
+  unfold envStepDone
+  cases t <;> cases u <;> rfl
 """),
 ]
 
